@@ -303,6 +303,15 @@ def hash_shard(config, seed, n_examples, import_ctx="top", long_lengths=()):
         for x, w in zip(out, want):
             if r1cs.lc_value(x.lc.d, rec.vals, p) != w:
                 fail(case, "hash output wire does not evaluate to the reference value", "hash")
+        if n % 2 == 0:
+            # hash chains / Merkle nodes: the digest (the very list the gadget returned) is the next message, alone and
+            # concatenated with itself
+            d2 = [x.value % p for x in ph.poseidon_hash(out)]
+            if d2 != ref_hash(want, consts, p):
+                fail(dict(case, chained=True), "hash of the digest of %r (the returned list fed straight back) differs from the plain reference" % (vals,), "hash")
+            d3 = [x.value % p for x in ph.poseidon_hash(out + out)]
+            if d3 != ref_hash(want + want, consts, p):
+                fail(dict(case, chained=True), "hash of two concatenated digests of %r differs from the plain reference" % (vals,), "hash")
         if n % 3 == 0:
             again = [x.value % p for x in ph.poseidon_hash(ins)]
             if again != want:
